@@ -11,6 +11,7 @@ from sse import api
 from vh import common as C
 from vh import progs as PG
 from vh import gen as G
+from vh import layout as LAY
 from fparser.two.utils import walk, Base
 from fparser.two import Fortran2003 as F
 
@@ -27,7 +28,7 @@ def units(tier):
     for p in progs:
         n = len(_lines(p))
         f08 = G.is_f08(p)
-        spots = [("full", i) for i in range(n + 1)] + [("trail", i) for i in range(n)]
+        spots = [("full", i) for i in range(n + 1)] + [("trail", i) for i in range(n)] + [("cont", i) for i in range(1, n - 1)]
         for si, s in enumerate(spots):
             rot += 1
             if q and rot % 2 and p in PG.base_programs()[40:]:
@@ -75,6 +76,30 @@ def com_prog(ctx):
                 expect.append(("full", text))
         if i < len(lines):
             l = lines[i]
+            done = False
+            for kind, at, text in coms:
+                if kind == "cont" and at == i and not done:
+                    # comments inside a continued statement: trailing on the first part, a comment
+                    # line between the parts, trailing on the last part
+                    pts = [x for x in LAY.split_points(l) if x[1] == 0]
+                    lab, nm, body = LAY.oracle_item(l)
+                    pts = [x for x in pts if x[0] > (0 if lab is None else 1) + (0 if nm is None else 2)]
+                    if pts:
+                        j, o = pts[len(pts) // 2]
+                        lay = LAY.free_layout(l, j, o, True, text[1:], ["   ! between parts %d" % i])
+                        if lay is not None:
+                            phys = lay[0]
+                            phys[-1] = phys[-1] + " ! end %d" % i
+                            out += phys
+                            expect.append(("trail", text))
+                            expect.append(("full", "! between parts %d" % i))
+                            expect.append(("trail", "! end %d" % i))
+                            done = True
+                    if not done:
+                        ctx.check(True, "not applicable")
+                        return
+            if done:
+                continue
             for kind, at, text in coms:
                 if kind == "trail" and at == i:
                     l = l + " " + text
